@@ -526,6 +526,10 @@ func evaluate(t *target, in input, modes []cmode, s *stats) {
 			continue
 		}
 		if !p.ok {
+			if p2 := parseOnce(t.prov, pin, pext); p2.ok || p2.panicF != "" {
+				s.unstable++ // does not reproduce
+				continue
+			}
 			s.violate(t, "disagree:"+t.kind+":provider-rejects:"+apiClass(c.name), fmt.Sprintf("consumer parses %s as %q but the provider-side parse of the same request fails: %s", in, c.name, p.err), in, extra)
 			continue
 		}
